@@ -78,6 +78,7 @@ type fakeIdp struct {
 	// idTokenHook may rewrite the claims / produce the serialized id_token (C03)
 	idTokenHook func(claims map[string]any, req *authReq) (string, bool)
 	omitIDToken bool
+	jwksNoAlg   bool
 }
 
 type rtData struct {
@@ -102,7 +103,20 @@ func newFakeIdp() *fakeIdp {
 	mux := http.NewServeMux()
 	mux.HandleFunc("/token", ip.token)
 	mux.HandleFunc("/par", ip.par)
-	mux.HandleFunc("/jwks", func(w http.ResponseWriter, r *http.Request) { json.NewEncoder(w).Encode(ip.keys.Public) })
+	mux.HandleFunc("/jwks", func(w http.ResponseWriter, r *http.Request) {
+		if !ip.jwksNoAlg {
+			json.NewEncoder(w).Encode(ip.keys.Public)
+			return
+		}
+		// same keys without the "alg" member: the relying party must fall back to its configured algorithm
+		b, _ := json.Marshal(ip.keys.Public)
+		var doc map[string][]map[string]any
+		json.Unmarshal(b, &doc)
+		for _, k := range doc["keys"] {
+			delete(k, "alg")
+		}
+		json.NewEncoder(w).Encode(doc)
+	})
 	ip.srv = httptest.NewServer(mux)
 	ip.issuer = ip.srv.URL
 	return ip
